@@ -1,10 +1,929 @@
 /-
-  Model module `Parser` (driver op `parse`). Import-free apart from RsjModel.* modules.
+  Model of `rsjsonnet-lang/src/parser/{mod.rs,expr.rs}` (property C15).
+
+  The parser state is `curr_token` / `rem_tokens` / `expected_things` exactly as in
+  `Parser`; `parse_expr` is the explicit-stack machine of expr.rs
+  (`State::{Parsed,Binary,BinaryRhs,Unary,Primary}`, `StackItem::*`) run with fuel; every
+  other `parse_*` / `maybe_parse_*` function is transcribed one-to-one.  The Rust
+  functions recurse only through `parse_expr`, so each of them takes the recursive
+  `parse_expr` (with smaller fuel) as the parameter `pe`.
+
+  Outcomes that are not `ParseError` (panic sites of the Rust code) are explicit `Fault`s.
+  `make_surrounding_span a b` is `(a.start, b.end)`; its assertion `start ≤ end` cannot
+  fire for lexer-ordered token spans (theorem `C15_spans_nested`), the driver rejects
+  token lists whose spans are not ordered (`bad-token-spans`).
 -/
-import RsjModel.Util
+import RsjModel.Ast
+import RsjModel.PrecedenceTable
+import RsjModel.Printer
 namespace Rsj.Parser
 
-/-- `parse <args...>` : one canonical answer line, or `none` for a malformed request. -/
-def handle (_args : List String) : Option String := none
+/-- `ExpectedToken` -/
+inductive Expected where
+  | eof | simple (k : STok) | ident | number | string | textBlock | expr | binaryOp
+deriving DecidableEq, Repr
+
+/-- Position in the derived `Ord` of `ExpectedToken`. -/
+def Expected.rank : Expected → Nat
+  | .eof => 0 | .simple k => 1 + k.rank | .ident => 100 | .number => 101 | .string => 102
+  | .textBlock => 103 | .expr => 104 | .binaryOp => 105
+
+/-- Panic sites (never a `ParseError`). -/
+inductive Fault where
+  | outOfFuel        -- model artefact: the fuel bound was too small (never observed)
+  | emptyTokens      -- `Parser::new`: "passed an empty token slice"
+  | noNextToken      -- `next_token`: `rem_tokens.next().unwrap()` on an exhausted iterator
+  | eofNotLast       -- `eat_eof`: `assert!(rem_tokens.is_empty())`
+  | unreachable      -- `unreachable!()` / `unwrap()` sites in `make_comp`, `in super`, `parse_arg`
+deriving DecidableEq, Repr
+
+/-- `Parser` fields; `suffix` records that the parser only ever walks forward over its input. -/
+structure PState (toks : List Token) where
+  cur : Token
+  rem : List Token
+  expected : List Expected
+  suffix : (cur :: rem) <:+ toks
+
+inductive Err (toks : List Token) where
+  | expected (st : PState toks)     -- `report_expected` in state `st`
+  | fault (f : Fault)
+
+abbrev Res (toks : List Token) (α : Type) := Except (Err toks) (α × PState toks)
+
+variable {toks : List Token}
+
+def surround (a b : Span) : Span := ⟨a.start, b.stop⟩
+
+def PState.push (st : PState toks) (e : Expected) : PState toks :=
+  { st with expected := st.expected ++ [e] }
+
+def PState.pushIf (st : PState toks) (add : Bool) (e : Expected) : PState toks :=
+  if add then st.push e else st
+
+/-- `next_token` (the consumed token is `st.cur`). -/
+def PState.advance (st : PState toks) : Except (Err toks) (PState toks) :=
+  match h : st.rem with
+  | [] => .error (.fault .noNextToken)
+  | c :: r =>
+    .ok { cur := c, rem := r, expected := [],
+          suffix := by
+            have h1 := st.suffix
+            rw [h] at h1
+            exact List.IsSuffix.trans (List.suffix_cons _ _) h1 }
+
+def reportExpected {α : Type} (st : PState toks) : Except (Err toks) α := .error (.expected st)
+
+def fault {α : Type} (f : Fault) : Except (Err toks) α := .error (.fault f)
+
+/-- `eat_eof` -/
+def eatEof (add : Bool) (st : PState toks) : Res toks Bool :=
+  if st.cur.kind = .eof then
+    if st.rem.isEmpty then .ok (true, { st with expected := [] }) else fault .eofNotLast
+  else .ok (false, st.pushIf add .eof)
+
+/-- `eat_simple` -/
+def eatSimple (k : STok) (add : Bool) (st : PState toks) : Res toks (Option Span) :=
+  if st.cur.kind = .simple k then do
+    let st' ← st.advance
+    pure (some st.cur.span, st')
+  else .ok (none, st.pushIf add (.simple k))
+
+/-- `expect_simple` -/
+def expectSimple (k : STok) (add : Bool) (st : PState toks) : Res toks Span := do
+  let (r, st') ← eatSimple k add st
+  match r with
+  | some sp => pure (sp, st')
+  | none => reportExpected st'
+
+/-- `eat_ident` -/
+def eatIdent (add : Bool) (st : PState toks) : Res toks (Option Ident) :=
+  match st.cur.kind with
+  | .ident v => do
+    let st' ← st.advance
+    pure (some ⟨v, st.cur.span⟩, st')
+  | _ => .ok (none, st.pushIf add .ident)
+
+/-- `expect_ident` -/
+def expectIdent (add : Bool) (st : PState toks) : Res toks Ident := do
+  let (r, st') ← eatIdent add st
+  match r with
+  | some i => pure (i, st')
+  | none => reportExpected st'
+
+/-- `eat_number` -/
+def eatNumber (add : Bool) (st : PState toks) : Res toks (Option (String × Span)) :=
+  match st.cur.kind with
+  | .number n => do
+    let st' ← st.advance
+    pure (some (n, st.cur.span), st')
+  | _ => .ok (none, st.pushIf add .number)
+
+/-- `eat_string` -/
+def eatString (add : Bool) (st : PState toks) : Res toks (Option (String × Span)) :=
+  match st.cur.kind with
+  | .string s => do
+    let st' ← st.advance
+    pure (some (s, st.cur.span), st')
+  | _ => .ok (none, st.pushIf add .string)
+
+/-- `eat_text_block` -/
+def eatTextBlock (add : Bool) (st : PState toks) : Res toks (Option (String × Span)) :=
+  match st.cur.kind with
+  | .textBlock s => do
+    let st' ← st.advance
+    pure (some (s, st.cur.span), st')
+  | _ => .ok (none, st.pushIf add .textBlock)
+
+/-- Try the listed tokens in order (`if eat(..) {..} else if eat(..) {..} ...`). -/
+def eatFirst {α : Type} (add : Bool) : List (STok × α) → PState toks → Res toks (Option (STok × α × Span))
+  | [], st => .ok (none, st)
+  | (k, a) :: rest, st => do
+    let (r, st') ← eatSimple k add st
+    match r with
+    | some sp => pure (some (k, a, sp), st')
+    | none => eatFirst add rest st'
+
+/-- `eat_visibility` -/
+def eatVisibility (add : Bool) (st : PState toks) : Res toks (Option Visibility) := do
+  let (r, st') ← eatFirst add
+    [(.Colon, Visibility.Default), (.ColonColon, .Hidden), (.ColonColonColon, .ForceVisible)] st
+  pure (r.map (·.2.1), st')
+
+/-- `eat_plus_visibility` -/
+def eatPlusVisibility (add : Bool) (st : PState toks) : Res toks (Option (Bool × Visibility)) := do
+  let (r, st') ← eatFirst add
+    [(.Colon, (false, Visibility.Default)), (.ColonColon, (false, .Hidden)),
+     (.ColonColonColon, (false, .ForceVisible)), (.PlusColon, (true, .Default)),
+     (.PlusColonColon, (true, .Hidden)), (.PlusColonColonColon, (true, .ForceVisible))] st
+  pure (r.map (·.2.1), st')
+
+/-- `peek_simple` -/
+def peekSimple (k : STok) (i : Nat) (st : PState toks) : Bool :=
+  match i with
+  | 0 => st.cur.kind = .simple k
+  | j + 1 =>
+    match st.rem[j]? with
+    | some t => t.kind = .simple k
+    | none => false
+
+def TokKind.isIdent : TokKind → Bool
+  | .ident _ => true
+  | _ => false
+
+/-- `peek_ident` -/
+def peekIdent (i : Nat) (st : PState toks) : Bool :=
+  match i with
+  | 0 => st.cur.kind.isIdent
+  | j + 1 =>
+    match st.rem[j]? with
+    | some t => t.kind.isIdent
+    | none => false
+
+/-! ## `parse_maybe_simple_expr` -/
+
+def parseMaybeSimpleExpr (st : PState toks) : Res toks (Option Expr) := do
+  let (r, st) ← eatSimple .Null false st
+  if let some sp := r then return (some (.null sp), st)
+  let (r, st) ← eatSimple .False_ false st
+  if let some sp := r then return (some (.bool false sp), st)
+  let (r, st) ← eatSimple .True_ false st
+  if let some sp := r then return (some (.bool true sp), st)
+  let (r, st) ← eatSimple .Self_ false st
+  if let some sp := r then return (some (.selfObj sp), st)
+  let (r, st) ← eatSimple .Dollar false st
+  if let some sp := r then return (some (.dollar sp), st)
+  let (r, st) ← eatString false st
+  if let some (s, sp) := r then return (some (.str s sp), st)
+  let (r, st) ← eatTextBlock false st
+  if let some (s, sp) := r then return (some (.textBlock s sp), st)
+  let (r, st) ← eatNumber false st
+  if let some (n, sp) := r then return (some (.number n sp), st)
+  let (r, st) ← eatIdent false st
+  if let some i := r then return (some (.ident i i.span), st)
+  return (none, st)
+
+/-! ## Functions that call `parse_expr` (= `pe`) -/
+
+section WithPe
+variable (pe : PState toks → Res toks Expr)
+
+/-- `parse_params` (after the `(`): the loop -/
+def paramsLoop : Nat → List Param → PState toks → Res toks (List Param × Span)
+  | 0, _, _ => fault .outOfFuel
+  | fuel + 1, acc, st => do
+    let (name, st) ← expectIdent true st
+    let (eq, st) ← eatSimple .Eq true st
+    let (dflt, st) ← (match eq with
+      | some _ => do
+        let (d, st) ← pe st
+        pure (some d, st)
+      | none => pure (none, st) : Res toks (Option Expr))
+    let acc := acc ++ [Param.mk name dflt]
+    let (r, st) ← eatSimple .RightParen true st
+    match r with
+    | some endSp => pure ((acc, endSp), st)
+    | none =>
+      let (c, st) ← eatSimple .Comma true st
+      match c with
+      | some _ =>
+        let (r2, st) ← eatSimple .RightParen true st
+        match r2 with
+        | some endSp => pure ((acc, endSp), st)
+        | none => paramsLoop fuel acc st
+      | none => reportExpected st
+
+/-- `parse_params` -/
+def parseParams (fuel : Nat) (st : PState toks) : Res toks (List Param × Span) := do
+  let (r, st) ← eatSimple .RightParen true st
+  match r with
+  | some endSp => pure (([], endSp), st)
+  | none => paramsLoop pe fuel [] st
+
+/-- `parse_arg` -/
+def parseArg (st : PState toks) : Res toks Arg :=
+  if peekIdent 0 st && peekSimple .Eq 1 st then do
+    let (name, st) ← eatIdent false st
+    match name with
+    | none => fault .unreachable
+    | some name =>
+      let (eq, st) ← eatSimple .Eq false st
+      match eq with
+      | none => fault .unreachable
+      | some _ =>
+        let (v, st) ← pe st
+        pure (.named name v, st)
+  else do
+    let (v, st) ← pe st
+    pure (.positional v, st)
+
+def argsLoop : Nat → List Arg → PState toks → Res toks (List Arg × Span)
+  | 0, _, _ => fault .outOfFuel
+  | fuel + 1, acc, st => do
+    let (a, st) ← parseArg pe st
+    let acc := acc ++ [a]
+    let (r, st) ← eatSimple .RightParen true st
+    match r with
+    | some endSp => pure ((acc, endSp), st)
+    | none =>
+      let (c, st) ← eatSimple .Comma true st
+      match c with
+      | some _ =>
+        let (r2, st) ← eatSimple .RightParen true st
+        match r2 with
+        | some endSp => pure ((acc, endSp), st)
+        | none => argsLoop fuel acc st
+      | none => reportExpected st
+
+/-- `parse_args` -/
+def parseArgs (fuel : Nat) (st : PState toks) : Res toks (List Arg × Span) := do
+  let (r, st) ← eatSimple .RightParen true st
+  match r with
+  | some endSp => pure (([], endSp), st)
+  | none => argsLoop pe fuel [] st
+
+/-- `maybe_parse_assert` -/
+def maybeParseAssert (add : Bool) (st : PState toks) : Res toks (Option (Span × Assert)) := do
+  let (r, st) ← eatSimple .Assert add st
+  match r with
+  | none => pure (none, st)
+  | some startSp =>
+    let (cond, st) ← pe st
+    let (c, st) ← eatSimple .Colon true st
+    match c with
+    | some _ =>
+      let (msg, st) ← pe st
+      pure (some (startSp, .mk (surround startSp msg.span) cond (some msg)), st)
+    | none => pure (some (startSp, .mk (surround startSp cond.span) cond none), st)
+
+/-- `parse_bind` -/
+def parseBind (fuel : Nat) (st : PState toks) : Res toks Bind := do
+  let (name, st) ← expectIdent true st
+  let (lp, st) ← eatSimple .LeftParen true st
+  match lp with
+  | some startSp =>
+    let ((params, endSp), st) ← parseParams pe fuel st
+    let (_, st) ← expectSimple .Eq true st
+    let (v, st) ← pe st
+    pure (.mk name true params (surround startSp endSp) v, st)
+  | none =>
+    let (_, st) ← expectSimple .Eq true st
+    let (v, st) ← pe st
+    pure (.mk name false [] Span.zero v, st)
+
+/-- `maybe_parse_obj_local` -/
+def maybeParseObjLocal (fuel : Nat) (st : PState toks) : Res toks (Option Bind) := do
+  let (r, st) ← eatSimple .Local true st
+  match r with
+  | some _ =>
+    let (b, st) ← parseBind pe fuel st
+    pure (some b, st)
+  | none => pure (none, st)
+
+/-- `maybe_parse_for_spec` -/
+def maybeParseForSpec (st : PState toks) : Res toks (Option CompSpec) := do
+  let (r, st) ← eatSimple .For true st
+  match r with
+  | some _ =>
+    let (v, st) ← expectIdent true st
+    let (_, st) ← expectSimple .In true st
+    let (inner, st) ← pe st
+    pure (some (.for_ v inner), st)
+  | none => pure (none, st)
+
+/-- `maybe_parse_if_spec` -/
+def maybeParseIfSpec (st : PState toks) : Res toks (Option CompSpec) := do
+  let (r, st) ← eatSimple .If true st
+  match r with
+  | some _ =>
+    let (c, st) ← pe st
+    pure (some (.if_ c), st)
+  | none => pure (none, st)
+
+def compSpecLoop : Nat → List CompSpec → PState toks → Res toks (List CompSpec)
+  | 0, _, _ => fault .outOfFuel
+  | fuel + 1, acc, st => do
+    let (f, st) ← maybeParseForSpec pe st
+    match f with
+    | some s => compSpecLoop fuel (acc ++ [s]) st
+    | none =>
+      let (i, st) ← maybeParseIfSpec pe st
+      match i with
+      | some s => compSpecLoop fuel (acc ++ [s]) st
+      | none => pure (acc, st)
+
+/-- `maybe_parse_comp_spec` -/
+def maybeParseCompSpec (fuel : Nat) (st : PState toks) : Res toks (Option (List CompSpec)) := do
+  let (f, st) ← maybeParseForSpec pe st
+  match f with
+  | some s =>
+    let (parts, st) ← compSpecLoop pe fuel [s] st
+    pure (some parts, st)
+  | none => pure (none, st)
+
+/-- `maybe_parse_field_name` -/
+def maybeParseFieldName (st : PState toks) : Res toks (Option FieldName) := do
+  let (r, st) ← eatIdent true st
+  if let some i := r then return (some (.ident i), st)
+  let (r, st) ← eatString true st
+  if let some (s, sp) := r then return (some (.str s sp), st)
+  let (r, st) ← eatTextBlock true st
+  if let some (s, sp) := r then return (some (.str s sp), st)
+  let (r, st) ← eatSimple .LeftBracket true st
+  match r with
+  | some startSp =>
+    let (e, st) ← pe st
+    let (endSp, st) ← expectSimple .RightBracket true st
+    pure (some (.expr e (surround startSp endSp)), st)
+  | none => pure (none, st)
+
+/-- `maybe_parse_field` -/
+def maybeParseField (fuel : Nat) (st : PState toks) : Res toks (Option Field) := do
+  let (n, st) ← maybeParseFieldName pe st
+  match n with
+  | none => pure (none, st)
+  | some name =>
+    let (lp, st) ← eatSimple .LeftParen true st
+    match lp with
+    | some startSp =>
+      let ((params, endSp), st) ← parseParams pe fuel st
+      let (vis, st) ← eatVisibility true st
+      match vis with
+      | none => reportExpected st
+      | some vis =>
+        let (v, st) ← pe st
+        pure (some (.func name params (surround startSp endSp) vis v), st)
+    | none =>
+      let (pv, st) ← eatPlusVisibility true st
+      match pv with
+      | none => reportExpected st
+      | some (plus, vis) =>
+        let (v, st) ← pe st
+        pure (some (.value name plus vis v), st)
+
+/-- the `for member in members` loop of `make_comp`:
+    state = (locals1, field, locals2) -/
+def makeCompLoop : List Member → List Bind → Option (Expr × Bool × Expr) → List Bind →
+    Except Fault (List Bind × Option (Expr × Bool × Expr) × List Bind)
+  | [], l1, f, l2 => .ok (l1, f, l2)
+  | .local_ b :: ms, l1, f, l2 =>
+    if f.isNone then makeCompLoop ms (l1 ++ [b]) f l2 else makeCompLoop ms l1 f (l2 ++ [b])
+  | .assert_ _ :: _, _, _, _ => .error .unreachable
+  | .field (.value (.expr name _) plus .Default body) :: ms, l1, f, l2 =>
+    if f.isNone then makeCompLoop ms l1 (some (name, plus, body)) l2 else .error .unreachable
+  | .field _ :: _, _, _, _ => .error .unreachable
+
+/-- `make_comp` -/
+def makeComp (members : List Member) (spec : List CompSpec) : Except Fault ObjInside :=
+  match makeCompLoop members [] none [] with
+  | .ok (l1, some (name, plus, body), l2) => .ok (.comp l1 name plus body l2 spec)
+  | .ok (_, none, _) => .error .unreachable
+  | .error f => .error f
+
+def liftFault {α : Type} (r : Except Fault α) (st : PState toks) : Res toks α :=
+  match r with
+  | .ok a => .ok (a, st)
+  | .error f => .error (.fault f)
+
+/-- classification of a field in `parse_obj_inside`: new (can_be_comp, has_comp_dyn_field) -/
+def fieldFlags (f : Field) (canBeComp hasDyn : Bool) : Bool × Bool :=
+  match f with
+  | .value (.expr _ _) _ .Default _ => if hasDyn then (false, hasDyn) else (canBeComp, true)
+  | _ => (false, hasDyn)
+
+/-- the `loop` of `parse_obj_inside` -/
+def objLoop : Nat → List Member → Bool → Bool → PState toks → Res toks (ObjInside × Span)
+  | 0, _, _, _, _ => fault .outOfFuel
+  | fuel + 1, members, canBeComp, hasDyn, st => do
+    let (ol, st) ← maybeParseObjLocal pe fuel st
+    let ((members, canBeComp, hasDyn), st) ← (match ol with
+      | some b => pure ((members ++ [.local_ b], canBeComp, hasDyn), st)
+      | none => do
+        let (fl, st) ← maybeParseField pe fuel st
+        match fl with
+        | some f =>
+          let (c, h) := fieldFlags f canBeComp hasDyn
+          pure ((members ++ [.field f], c, h), st)
+        | none =>
+          let (a, st) ← maybeParseAssert pe true st
+          match a with
+          | some (_, a) => pure ((members ++ [.assert_ a], false, hasDyn), st)
+          | none => reportExpected st
+      : Res toks (List Member × Bool × Bool))
+    let (rb, st) ← eatSimple .RightBrace true st
+    match rb with
+    | some endSp => pure ((.members members, endSp), st)
+    | none =>
+      let (c, st) ← eatSimple .Comma true st
+      match c with
+      | some _ =>
+        let (rb2, st) ← eatSimple .RightBrace true st
+        match rb2 with
+        | some endSp => pure ((.members members, endSp), st)
+        | none =>
+          if canBeComp && hasDyn then do
+            let (cs, st) ← maybeParseCompSpec pe fuel st
+            match cs with
+            | some spec =>
+              let (endSp, st) ← expectSimple .RightBrace true st
+              let (o, st) ← liftFault (makeComp members spec) st
+              pure ((o, endSp), st)
+            | none => objLoop fuel members canBeComp hasDyn st
+          else objLoop fuel members canBeComp hasDyn st
+      | none =>
+        if canBeComp && hasDyn then do
+          let (cs, st) ← maybeParseCompSpec pe fuel st
+          match cs with
+          | some spec =>
+            let (endSp, st) ← expectSimple .RightBrace true st
+            let (o, st) ← liftFault (makeComp members spec) st
+            pure ((o, endSp), st)
+          | none => reportExpected st
+        else reportExpected st
+
+/-- `parse_obj_inside` (after the `{`) -/
+def parseObjInside (fuel : Nat) (st : PState toks) : Res toks (ObjInside × Span) := do
+  let (rb, st) ← eatSimple .RightBrace true st
+  match rb with
+  | some endSp => pure ((.members [], endSp), st)
+  | none => objLoop pe fuel [] true false st
+
+/-- the tail of a slice after `[ e1? : e2? ` has been read and a further `:` was eaten:
+    `]` or `e3 ]` -/
+def sliceLast (st : PState toks) : Res toks (Option Expr × Span) := do
+  let (rb, st) ← eatSimple .RightBracket true st
+  match rb with
+  | some endSp => pure ((none, endSp), st)
+  | none =>
+    let (i3, st) ← pe st
+    let (endSp, st) ← expectSimple .RightBracket true st
+    pure ((some i3, endSp), st)
+
+/-- after `[ e1? :` : the sub-tree `] | : (] | e3 ]) | e2 (] | : (] | e3 ]))` -/
+def sliceAfterColon (st : PState toks) : Res toks (Option Expr × Option Expr × Span) := do
+  let (rb, st) ← eatSimple .RightBracket true st
+  match rb with
+  | some endSp => pure ((none, none, endSp), st)
+  | none =>
+    let (c, st) ← eatSimple .Colon true st
+    match c with
+    | some _ =>
+      let ((i3, endSp), st) ← sliceLast pe st
+      pure ((none, i3, endSp), st)
+    | none =>
+      let (i2, st) ← pe st
+      let (rb, st) ← eatSimple .RightBracket true st
+      match rb with
+      | some endSp => pure ((some i2, none, endSp), st)
+      | none =>
+        let (c, st) ← eatSimple .Colon true st
+        match c with
+        | some _ =>
+          let ((i3, endSp), st) ← sliceLast pe st
+          pure ((some i2, i3, endSp), st)
+        | none => reportExpected st
+
+/-- `parse_index_expr` (after the `[`) -/
+def parseIndexExpr (lhs : Expr) (st : PState toks) : Res toks Expr := do
+  let (c, st) ← eatSimple .Colon true st
+  match c with
+  | some _ =>
+    let ((i2, i3, endSp), st) ← sliceAfterColon pe st
+    pure (.slice lhs none i2 i3 (surround lhs.span endSp), st)
+  | none =>
+    let (cc, st) ← eatSimple .ColonColon true st
+    match cc with
+    | some _ =>
+      let ((i3, endSp), st) ← sliceLast pe st
+      pure (.slice lhs none none i3 (surround lhs.span endSp), st)
+    | none =>
+      let (i1, st) ← pe st
+      let (rb, st) ← eatSimple .RightBracket true st
+      match rb with
+      | some endSp => pure (.index lhs i1 (surround lhs.span endSp), st)
+      | none =>
+        let (c, st) ← eatSimple .Colon true st
+        match c with
+        | some _ =>
+          let ((i2, i3, endSp), st) ← sliceAfterColon pe st
+          pure (.slice lhs (some i1) i2 i3 (surround lhs.span endSp), st)
+        | none =>
+          let (cc, st) ← eatSimple .ColonColon true st
+          match cc with
+          | some _ =>
+            let ((i3, endSp), st) ← sliceLast pe st
+            pure (.slice lhs (some i1) none i3 (surround lhs.span endSp), st)
+          | none => reportExpected st
+
+/-- `parse_suffix_expr` -/
+def parseSuffixExpr : Nat → Expr → PState toks → Res toks Expr
+  | 0, _, _ => fault .outOfFuel
+  | fuel + 1, lhs, st => do
+    let (dot, st) ← eatSimple .Dot true st
+    match dot with
+    | some _ =>
+      let (name, st) ← expectIdent true st
+      parseSuffixExpr fuel (.field lhs name (surround lhs.span name.span)) st
+    | none =>
+      let (lb, st) ← eatSimple .LeftBracket true st
+      match lb with
+      | some _ =>
+        let (e, st) ← parseIndexExpr pe lhs st
+        parseSuffixExpr fuel e st
+      | none =>
+        let (lp, st) ← eatSimple .LeftParen true st
+        match lp with
+        | some _ =>
+          let (rp, st) ← eatSimple .RightParen true st
+          let ((args, endSp), st) ← (match rp with
+            | some endSp => pure (([], endSp), st)
+            | none => parseArgs pe fuel st : Res toks (List Arg × Span))
+          let (ts, st) ← eatSimple .Tailstrict true st
+          parseSuffixExpr fuel
+            (.call lhs args ts.isSome (surround lhs.span (ts.getD endSp))) st
+        | none =>
+          let (lbr, st) ← eatSimple .LeftBrace true st
+          match lbr with
+          | some objStart =>
+            let ((o, objEnd), st) ← parseObjInside pe fuel st
+            parseSuffixExpr fuel
+              (.objExt lhs o (surround objStart objEnd) (surround lhs.span objEnd)) st
+          | none => pure (lhs, st)
+
+/-- `while eat(Comma) { binds.push(parse_bind()) }` of the `local` expression -/
+def bindsLoop : Nat → List Bind → PState toks → Res toks (List Bind)
+  | 0, _, _ => fault .outOfFuel
+  | fuel + 1, acc, st => do
+    let (c, st) ← eatSimple .Comma true st
+    match c with
+    | some _ =>
+      let (b, st) ← parseBind pe fuel st
+      bindsLoop fuel (acc ++ [b]) st
+    | none => pure (acc, st)
+
+/-! ### The explicit-stack machine of `parse_expr` -/
+
+inductive State where
+  | parsed (e : Expr)
+  | binary (k : BinKind)
+  | binaryRhs (k : BinKind) (lhs : Expr)
+  | unary
+  | primary
+
+inductive StackItem where
+  | binaryLhs (k : BinKind)
+  | binaryRhs (k : BinKind) (lhs : Expr) (op : BinaryOp)
+  | unary (op : UnaryOp) (sp : Span)
+  | suffix
+  | arrayItem0 (sp : Span)
+  | arrayItemN (sp : Span) (items : List Expr)
+  | paren (sp : Span)
+
+/-- `BinOpKind::next_state` as a `State` -/
+def nextStateOf (k : BinKind) : State :=
+  match k.nextState with
+  | some k' => .binary k'
+  | none => .unary
+
+def initState : State := .binary initKind
+
+/-- `State::Primary`, all alternatives that finish inside this step: result is the next
+    `(stack, state)` -/
+def primaryStep (fuel : Nat) (stack : List StackItem) (st : PState toks) :
+    Res toks (List StackItem × State) := do
+  let (se, st) ← parseMaybeSimpleExpr st
+  if let some e := se then return ((stack, .parsed e), st)
+  let (r, st) ← eatSimple .LeftBrace false st
+  if let some startSp := r then
+    let ((o, endSp), st) ← parseObjInside pe fuel st
+    return ((stack, .parsed (.object o (surround startSp endSp))), st)
+  let (r, st) ← eatSimple .LeftBracket false st
+  if let some startSp := r then
+    let (rb, st) ← eatSimple .RightBracket true st
+    match rb with
+    | some endSp => return ((stack, .parsed (.array [] (surround startSp endSp))), st)
+    | none => return ((.arrayItem0 startSp :: stack, initState), st)
+  let (r, st) ← eatSimple .Super false st
+  if let some superSp := r then
+    let (dot, st) ← eatSimple .Dot true st
+    match dot with
+    | some _ =>
+      let (name, st) ← expectIdent true st
+      return ((stack, .parsed (.superField superSp name (surround superSp name.span))), st)
+    | none =>
+      let (lb, st) ← eatSimple .LeftBracket true st
+      match lb with
+      | some _ =>
+        let (i, st) ← pe st
+        let (endSp, st) ← expectSimple .RightBracket true st
+        return ((stack, .parsed (.superIndex superSp i (surround superSp endSp))), st)
+      | none => reportExpected st
+  let (r, st) ← eatSimple .Local false st
+  if let some startSp := r then
+    let (b0, st) ← parseBind pe fuel st
+    let (binds, st) ← bindsLoop pe fuel [b0] st
+    let (_, st) ← expectSimple .Semicolon true st
+    let (inner, st) ← pe st
+    return ((stack, .parsed (.local_ binds inner (surround startSp inner.span))), st)
+  let (r, st) ← eatSimple .If false st
+  if let some ifSp := r then
+    let (cond, st) ← pe st
+    let (_, st) ← expectSimple .Then true st
+    let (thenB, st) ← pe st
+    let (el, st) ← eatSimple .Else true st
+    match el with
+    | some _ =>
+      let (elseB, st) ← pe st
+      return ((stack, .parsed (.ite_ cond thenB (some elseB) (surround ifSp elseB.span))), st)
+    | none =>
+      return ((stack, .parsed (.ite_ cond thenB none (surround ifSp thenB.span))), st)
+  let (r, st) ← eatSimple .Function false st
+  if let some startSp := r then
+    let (_, st) ← expectSimple .LeftParen true st
+    let ((params, _), st) ← parseParams pe fuel st
+    let (body, st) ← pe st
+    return ((stack, .parsed (.func params body (surround startSp body.span))), st)
+  let (r, st) ← maybeParseAssert pe false st
+  if let some (startSp, a) := r then
+    let (_, st) ← expectSimple .Semicolon true st
+    let (inner, st) ← pe st
+    return ((stack, .parsed (.assert_ a inner (surround startSp inner.span))), st)
+  let (r, st) ← eatSimple .Import false st
+  if let some startSp := r then
+    let (e, st) ← pe st
+    return ((stack, .parsed (.import_ e (surround startSp e.span))), st)
+  let (r, st) ← eatSimple .Importstr false st
+  if let some startSp := r then
+    let (e, st) ← pe st
+    return ((stack, .parsed (.importStr e (surround startSp e.span))), st)
+  let (r, st) ← eatSimple .Importbin false st
+  if let some startSp := r then
+    let (e, st) ← pe st
+    return ((stack, .parsed (.importBin e (surround startSp e.span))), st)
+  let (r, st) ← eatSimple .Error false st
+  if let some startSp := r then
+    let (e, st) ← pe st
+    return ((stack, .parsed (.error_ e (surround startSp e.span))), st)
+  let (r, st) ← eatSimple .LeftParen false st
+  if let some startSp := r then
+    return ((.paren startSp :: stack, initState), st)
+  reportExpected (st.push .expr)
+
+/-- `State::BinaryRhs(kind, lhs)` -/
+def binaryRhsStep (k : BinKind) (lhs : Expr) (stack : List StackItem) (st : PState toks) :
+    Res toks (List StackItem × State) := do
+  let (r, st) ← eatFirst false k.ops st
+  match r with
+  | some (tok, op, _) =>
+    if k = inSuperKind ∧ tok = STok.In ∧ peekSimple inSuperHead 0 st
+        ∧ inSuperExclude.all (fun x => !peekSimple x 1 st) then do
+      let (s, st) ← eatSimple inSuperHead true st
+      match s with
+      | some superSp =>
+        pure ((stack, .binaryRhs k (.inSuper lhs superSp (surround lhs.span superSp))), st)
+      | none => fault .unreachable
+    else pure ((.binaryRhs k lhs op :: stack, nextStateOf k), st)
+  | none => pure ((stack, .parsed lhs), st.push .binaryOp)
+
+/-- `State::Unary` -/
+def unaryStep (stack : List StackItem) (st : PState toks) : Res toks (List StackItem × State) := do
+  let (r, st) ← eatFirst false unaryOps st
+  match r with
+  | some (_, op, opSp) => pure ((.unary op opSp :: stack, .unary), st)
+  | none => pure ((.suffix :: stack, .primary), st)
+
+/-- `State::Parsed(expr)` with a non-empty stack -/
+def parsedStep (fuel : Nat) (expr : Expr) (item : StackItem) (stack : List StackItem)
+    (st : PState toks) : Res toks (List StackItem × State) :=
+  match item with
+  | .binaryLhs k => pure ((stack, .binaryRhs k expr), st)
+  | .binaryRhs k lhs op =>
+    pure ((stack, .binaryRhs k (.binary lhs op expr (surround lhs.span expr.span))), st)
+  | .unary op opSp => pure ((stack, .parsed (.unary op expr (surround opSp expr.span))), st)
+  | .suffix => do
+    let (e, st) ← parseSuffixExpr pe fuel expr st
+    pure ((stack, .parsed e), st)
+  | .arrayItem0 startSp => do
+    let (comma, st) ← eatSimple .Comma true st
+    let (cs, st) ← maybeParseCompSpec pe fuel st
+    match cs with
+    | some spec =>
+      let (endSp, st) ← expectSimple .RightBracket true st
+      pure ((stack, .parsed (.arrayComp expr spec (surround startSp endSp))), st)
+    | none =>
+      let (rb, st) ← eatSimple .RightBracket true st
+      match rb with
+      | some endSp => pure ((stack, .parsed (.array [expr] (surround startSp endSp))), st)
+      | none =>
+        if comma.isSome then pure ((.arrayItemN startSp [expr] :: stack, initState), st)
+        else reportExpected st
+  | .arrayItemN startSp items => do
+    let items := items ++ [expr]
+    let (comma, st) ← eatSimple .Comma true st
+    let (rb, st) ← eatSimple .RightBracket true st
+    match rb with
+    | some endSp => pure ((stack, .parsed (.array items (surround startSp endSp))), st)
+    | none =>
+      if comma.isSome then pure ((.arrayItemN startSp items :: stack, initState), st)
+      else reportExpected st
+  | .paren startSp => do
+    let (endSp, st) ← expectSimple .RightParen true st
+    pure ((stack, .parsed (.paren expr (surround startSp endSp))), st)
+
+/-- the `loop { match state {..} }` of `parse_expr` -/
+def exprLoop : Nat → List StackItem → State → PState toks → Res toks Expr
+  | 0, _, _, _ => fault .outOfFuel
+  | fuel + 1, stack, state, st =>
+    match state, stack with
+    | .parsed e, [] => pure (e, st)
+    | .parsed e, item :: stack => do
+      let ((stack, state), st) ← parsedStep pe fuel e item stack st
+      exprLoop fuel stack state st
+    | .binary k, stack => exprLoop fuel (.binaryLhs k :: stack) (nextStateOf k) st
+    | .binaryRhs k lhs, stack => do
+      let ((stack, state), st) ← binaryRhsStep k lhs stack st
+      exprLoop fuel stack state st
+    | .unary, stack => do
+      let ((stack, state), st) ← unaryStep stack st
+      exprLoop fuel stack state st
+    | .primary, stack => do
+      let ((stack, state), st) ← primaryStep pe fuel stack st
+      exprLoop fuel stack state st
+
+end WithPe
+
+/-- `parse_expr` with a fuel bound on loop iterations + recursion depth. -/
+def parseExprF : Nat → PState toks → Res toks Expr
+  | 0, _ => fault .outOfFuel
+  | fuel + 1, st => exprLoop (parseExprF fuel) fuel [] initState st
+
+/-- `parse_root_expr` -/
+def parseRootF (fuel : Nat) (st : PState toks) : Except (Err toks) Expr := do
+  let (e, st) ← parseExprF fuel st
+  let (b, st) ← eatEof true st
+  if b then pure e else reportExpected st
+
+/-! ## Top level -/
+
+/-- `ActualToken` -/
+inductive Actual where
+  | eof | simple (k : STok) | otherOp (s : String) | ident (s : String) | number | string | textBlock
+deriving DecidableEq, Repr
+
+/-- `ActualToken::from_token_kind` -/
+def Actual.ofKind : TokKind → Actual
+  | .eof => .eof
+  | .simple k => .simple k
+  | .otherOp s => .otherOp s
+  | .ident s => .ident s
+  | .number _ => .number
+  | .string _ => .string
+  | .textBlock _ => .textBlock
+
+def insertSorted (e : Expected) : List Expected → List Expected
+  | [] => [e]
+  | x :: xs =>
+    if e.rank < x.rank then e :: x :: xs
+    else if e.rank = x.rank then x :: xs
+    else x :: insertSorted e xs
+
+/-- `expected_things.drain(..).collect::<BTreeSet<_>>()` in iteration order -/
+def expectedSet (l : List Expected) : List Expected := l.foldl (fun acc e => insertSorted e acc) []
+
+inductive ParseResult where
+  | ok (e : Expr)
+  | expected (span : Span) (expected : List Expected) (instead : Actual)   -- `ParseError::Expected`
+  | fault (f : Fault)
+
+def fuelFor (toks : List Token) : Nat := 40 * toks.length + 100
+
+/-- `Parser::new(tokens).parse_root_expr()` -/
+def parseWithFuel (fuel : Nat) (toks : List Token) : ParseResult :=
+  match h : toks with
+  | [] => .fault .emptyTokens
+  | t :: r =>
+    let st0 : PState toks := { cur := t, rem := r, expected := [], suffix := by rw [h]; exact List.suffix_refl _ }
+    match parseRootF fuel st0 with
+    | .ok e => .ok e
+    | .error (.expected st) => .expected st.cur.span (expectedSet st.expected) (Actual.ofKind st.cur.kind)
+    | .error (.fault f) => .fault f
+
+def parse (toks : List Token) : ParseResult := parseWithFuel (fuelFor toks) toks
+
+/-- Lexer-ordered spans: every token is non-inverted and tokens do not overlap. -/
+def spansOrdered : List Token → Bool
+  | [] => true
+  | [t] => t.span.start ≤ t.span.stop
+  | t :: u :: rest => t.span.start ≤ t.span.stop && t.span.stop ≤ u.span.start && spansOrdered (u :: rest)
+
+/-! ## Driver -/
+
+def Expected.show : Expected → String
+  | .eof => "Eof" | .simple k => "S" ++ k.name | .ident => "Ident" | .number => "Number"
+  | .string => "String" | .textBlock => "TextBlock" | .expr => "Expr" | .binaryOp => "BinaryOp"
+
+def Actual.show : Actual → String
+  | .eof => "Eof" | .simple k => "S" ++ k.name | .otherOp s => "O" ++ s | .ident s => "I" ++ s
+  | .number => "Number" | .string => "String" | .textBlock => "TextBlock"
+
+def Fault.show : Fault → String
+  | .outOfFuel => "outOfFuel" | .emptyTokens => "emptyTokens" | .noNextToken => "noNextToken"
+  | .eofNotLast => "eofNotLast" | .unreachable => "unreachable"
+
+def ParseResult.show : ParseResult → String
+  | .ok e => "ast=" ++ serExpr e
+  | .expected sp ex act =>
+    "err=" ++ toString sp.start ++ ":" ++ toString sp.stop ++ ";" ++
+      (if ex.isEmpty then "-" else ",".intercalate (ex.map Expected.show)) ++ ";" ++ act.show
+  | .fault f => "fault=" ++ f.show
+
+/-- token notation: `E` | `S<Name>` | `O<hex>` | `I<hex>` | `N<hexdigits>_<exp>` | `T<hex>` | `B<hex>`,
+    each followed by `:<start>:<end>`; tokens separated by `,`. -/
+def TokKind.show : TokKind → String
+  | .eof => "E" | .simple k => "S" ++ k.name | .otherOp s => "O" ++ s | .ident s => "I" ++ s
+  | .number s => "N" ++ s | .string s => "T" ++ s | .textBlock s => "B" ++ s
+
+def Token.show (t : Token) : String :=
+  t.kind.show ++ ":" ++ toString t.span.start ++ ":" ++ toString t.span.stop
+
+def readTokKind (s : String) : Option TokKind :=
+  match s.toList with
+  | 'E' :: [] => some .eof
+  | 'S' :: r => (STok.ofName (String.ofList r)).map .simple
+  | 'O' :: r => some (.otherOp (String.ofList r))
+  | 'I' :: r => some (.ident (String.ofList r))
+  | 'N' :: r => some (.number (String.ofList r))
+  | 'T' :: r => some (.string (String.ofList r))
+  | 'B' :: r => some (.textBlock (String.ofList r))
+  | _ => none
+
+def readToken (s : String) : Option Token :=
+  match s.splitOn ":" with
+  | [k, a, b] => do pure ⟨← readTokKind k, ⟨← a.toNat?, ← b.toNat?⟩⟩
+  | _ => none
+
+def readTokens (s : String) : Option (List Token) :=
+  if s == "-" then some [] else (s.splitOn ",").mapM readToken
+
+def showTokens (l : List Token) : String :=
+  if l.isEmpty then "-" else ",".intercalate (l.map Token.show)
+
+/-- `parse toks <tokens>` → `ast=..` | `err=..` | `fault=..` | `bad-token-spans`;
+    `parse print <tree> <min|full>` → `toks=<tokens> text=<hex>`;
+    `parse erase <tree>` → the tree without spans and `Paren` nodes. -/
+def handle (args : List String) : Option String :=
+  match args with
+  | ["toks", ts] => do
+    let toks ← readTokens ts
+    if spansOrdered toks then pure (parse toks).show else pure "bad-token-spans"
+  | ["print", tree, mode] => do
+    let e ← readExpr tree
+    let ks ← (if mode == "min" then some (printMin e) else if mode == "full" then some (printFull e)
+              else none)
+    let (toks, text) ← layout ks
+    pure ("toks=" ++ showTokens toks ++ " text=" ++ hexEnc text)
+  | ["erase", tree] => do
+    let e ← readExpr tree
+    pure (serExpr e.erase)
+  | _ => none
 
 end Rsj.Parser
